@@ -15,6 +15,22 @@ func sigOf(ord, s, l string, signed bool) *descriptor.Signal {
 func genC08(g *G) {
 	geos := Geometries()
 	g.Hist["geometries"] = len(geos)
+	// the same (start, length) in the two byte orders back to back, reads and writes: a result must not depend on the
+	// call before (state kept between calls)
+	for s0 := 0; s0 < 64; s0++ {
+		for l := 1; l <= 64; l++ {
+			if !FitsLE(s0, l) || !FitsBE(s0, l) {
+				continue
+			}
+			p, v := g.R.U64(), g.R.U64()&maskN(l)
+			for _, ord := range []string{"LE", "BE", "LE"} {
+				g.Emit("sgu %s %d %d %s", ord, s0, l, dataHex(p))
+				g.Emit("sgs %s %d %d %s", ord, s0, l, dataHex(p))
+				g.Emit("smu %s %d %d %s %d", ord, s0, l, dataHex(p), v)
+			}
+		}
+	}
+	g.Tag("interleaved-orders")
 	nr := g.N(2, 32)
 	for _, ge := range geos {
 		m := maskN(ge.L)
